@@ -333,9 +333,32 @@ def run(model, col, tier):
     sub = Collector("C07")
     c07.run(model, sub, tier)
     for ob in sub.obligations:
-        if ob.rule == "R07.3":
+        # a function whose locals have other types than the registers they stand for, or whose body is framed wrongly, is an
+        # invalid module: it neither agrees with the VM nor was it refused
+        if ob.rule in ("R07.3", "R07.2", "R07.4", "R07.9"):
+            ob.detail = f"[{ob.rule}] " + (ob.detail or "")
             ob.rule = "R06.6"
             col.obligations.append(ob)
+    # every signedness-dependent opcode (`*_s`) the generator can emit is one of a signed/unsigned pair chosen by a test on
+    # the operand type's `Unsigned`: a handler that emits the signed form unconditionally is wrong for every uint with bit 31 set
+    gen_fi = model.file(GEN)
+    nsig = 0
+    for fnode in [n for n in ast.walk(gen_fi.tree) if isinstance(n, ast.FunctionDef)]:
+        consts = [c for c in ast.walk(fnode) if isinstance(c, ast.Constant) and isinstance(c.value, str)]
+        inner = {id(x) for d_ in ast.walk(fnode) if isinstance(d_, ast.FunctionDef) and d_ is not fnode for x in ast.walk(d_)}
+        for c in consts:
+            if id(c) in inner or not c.value.endswith("_s"):
+                continue
+            nsig += 1
+            twin = c.value[:-2] + "_u"
+            has_twin = any(k.value == twin for k in consts)
+            by_sign = any(isinstance(t_, (ast.If, ast.IfExp)) and "nsigned" in unparse(t_.test) for t_ in ast.walk(fnode)) or \
+                any("nsigned" in unparse(v_) for n_ in ast.walk(fnode) if isinstance(n_, ast.Assign) for v_ in [n_.value]
+                    if any(isinstance(t_, (ast.If, ast.IfExp)) and any(isinstance(x, ast.Name) and x.id in {unparse(tt) for tt in n_.targets} for x in ast.walk(t_.test)) for t_ in ast.walk(fnode)))
+            col.check(has_twin and by_sign, "R06.6", f"{GEN}::{fnode.name} `{c.value}` is chosen by signedness", f"`{c.value}` / `{twin}` selected by a test on the type's Unsigned flag",
+                      f"`{c.value}` is emitted without its unsigned counterpart `{twin}` being chosen for unsigned operands: the VM treats a uint with bit 31 set as a large positive number, "
+                      "the wasm instruction as a negative one", GEN, c)
+    col.floor("R06.6", "signed-variant opcode literals in the generator", nsig, 1)
     # ---------------- R06.7 immediates decode to the constant (= R19.1 + R19.4) ----
     from . import c19
 
